@@ -508,7 +508,10 @@ func readString(dst, b []byte) ([]byte, []byte, error) {
 	var n uint64
 
 	if len(b) == 0 {
-		return b, dst, errors.New("no bytes left reading a string. Malformed data?")
+		// Nothing of the string has arrived yet. Like a cut-off integer this is
+		// "the rest is in the next frame", which the caller tells apart from a
+		// malformed block by whether the block has ended.
+		return b, dst, ErrUnexpectedSize
 	}
 
 	mustDecode := b[0]&128 == 128 // huffman encoded
